@@ -1086,6 +1086,17 @@ func c17CopyStyle(s *xl.Style) *xl.Style {
 	return c
 }
 
+// c17CodePair toggles CustomNumFmt between two near-equal codes.
+func c17CodePair(a, b string) func(*xl.Style) {
+	return func(s *xl.Style) {
+		c := a
+		if s.CustomNumFmt != nil && *s.CustomNumFmt == a {
+			c = b
+		}
+		s.CustomNumFmt = &c
+	}
+}
+
 // c17Twins lists, for every field of Style that takes part in a definition, a change of exactly
 // that field (the mutators make the field differ from whatever the base holds).
 func c17Twins() []c17Twin {
@@ -1296,6 +1307,17 @@ func c17Twins() []c17Twin {
 			}
 			s.NegRed = !s.NegRed
 		})},
+		// near-equal custom codes: every pair must stay two definitions with two ids
+		{"CustomNumFmt(letter case in a literal)", c17CodePair(`0.0 "kg"`, `0.0 "KG"`)},
+		{"CustomNumFmt(exponent case)", c17CodePair("0.00E+00", "0.00e+00")},
+		{"CustomNumFmt(date token case)", c17CodePair("yyyy-mm-dd", "YYYY-MM-DD")},
+		{"CustomNumFmt(colour name case)", c17CodePair("0.00;[Red]0.00", "0.00;[red]0.00")},
+		{"CustomNumFmt(trailing space)", c17CodePair("0.00", "0.00 ")},
+		{"CustomNumFmt(leading space)", c17CodePair("0.0", " 0.0")},
+		{"CustomNumFmt(literal content)", c17CodePair(`0 "a"`, `0 "b"`)},
+		{"CustomNumFmt(escaped char)", c17CodePair(`0\-0`, `0-0`)},
+		{"CustomNumFmt(quote vs escape)", c17CodePair(`0"x"`, `0\x`)},
+		{"CustomNumFmt(non-ASCII case)", c17CodePair(`0 "é"`, `0 "É"`)},
 		{"CustomNumFmt", func(s *xl.Style) {
 			c := "0.0000"
 			if s.CustomNumFmt != nil && *s.CustomNumFmt == c {
@@ -1452,7 +1474,7 @@ func c17GenBorder(rng *Rng) []xl.Border {
 	return bs
 }
 
-var c17Customs = []string{"0.000", "yyyy-mm-dd", "#,##0.00;[Red]#,##0.00", "[$$-409]#,##0.00", "[$$-409]#,##0.00;[Red][$$-409]#,##0.00", "@", "0.0%", "\"¥\"#,##0.00", "#,##0.0_);(#,##0.00)", "general", ""}
+var c17Customs = []string{"0.000", "yyyy-mm-dd", "#,##0.00;[Red]#,##0.00", "[$$-409]#,##0.00", "[$$-409]#,##0.00;[Red][$$-409]#,##0.00", "@", "0.0%", "\"¥\"#,##0.00", "#,##0.0_);(#,##0.00)", "general", "", "0.00E+00", "0.00e+00", "0.0 \"kg\"", "0.0 \"KG\"", "0.000 ", "YYYY-MM-DD"}
 
 func c17GenNum(rng *Rng, s *xl.Style) {
 	switch x := rng.Intn(100); {
